@@ -159,6 +159,7 @@ func RunC12(c *Ctx) {
 	}
 	workload.W1R(sink)
 	workload.W1Words(sink)
+	workload.W1First(sink)
 	nullVariants(sink)
 	workload.W1(c.Thorough(), func(cs *h.Case) {
 		if cs.P[0] < workload.TopLevelSeeds() {
@@ -471,6 +472,7 @@ func RunC13(c *Ctx) {
 	}
 	workload.W1R(sink)
 	workload.W1Words(sink)
+	workload.W1First(sink)
 	nullVariants(sink)
 	workload.W1(c.Thorough(), sink)
 	n := 300000
